@@ -250,7 +250,11 @@ def case_get(ctx, inp):
            dc.canonical_name(inp["key"].split(".")[0], cfg))
     # documented behaviour of the optional arguments: `default` replaces the exception, `override_with` wins
     sentinel = object()
-    got = dc.get(inp["key"], default=sentinel, config=cfg)
+    try:
+        got = dc.get(inp["key"], default=sentinel, config=cfg)
+    except (KeyError, TypeError, IndexError) as e:
+        ctx.fail("get(key, default=…) raised instead of returning the default", observed=f"{type(e).__name__}: {e}")
+        return
     if impl[0] == "ok":
         if it.enc(got) != impl[1]:
             ctx.fail("get(key, default=…) differs from get(key) for an existing key", observed=repr(got))
@@ -517,6 +521,8 @@ CASES = {"set": case_set, "prog": case_prog, "get": case_get, "update": case_upd
 # generators
 # ------------------------------------------------------------------------------------------------------------
 UNIVERSE = ["a", "a.b", "a-b", "a_b", "a.b.c", "x", "x.y", "q.r", "a_b.c", "a-b.c"]
+SEG_UPD = SEGMENTS[:8] + ["a_b_c", "a-b-c"]       # no mixed names: the precedence oracles skip those
+UNIVERSE_WIDE = UNIVERSE +["a_b_c", "a-b-c", "a_b-c", "a_b_c.a-b-c", "x.a_b_c", "a-b-c.x", "q.r.s.t"]
 KW_UNIVERSE = ["a", "a__b", "a_b", "x", "x__y", "q__r", "a_b__c", "a__b__c", "a___b", "a____b", "_a", "a_", "__a", "a__",
                "a-b", "a.b", "x__y__z__w"]
 DEPRECATED = ["fuse_ave_width", "fuse-ave-width", "shuffle", "array.rechunk-threshold", "ucx.tcp"]
@@ -532,7 +538,7 @@ def _gen_items(rng, cfg, nmax=3, universe=None):
         if kw:
             k = rng.choice(KW_UNIVERSE)
         elif r < 0.45:
-            k = rng.choice(universe or UNIVERSE)
+            k = rng.choice(universe or UNIVERSE_WIDE)
         elif r < 0.97:
             k = gen_key(rng, cfg)
         else:
@@ -615,27 +621,27 @@ def generate(ctx):
         cfg = gen_cfg(rng)
         yield "get", {"cfg": cfg, "key": gen_key(rng, cfg)}
     for _ in range(ctx.n(500, 6000)):
-        old = gen_cfg(rng, segs=SEGMENTS[:8])
-        new = gen_cfg(rng, segs=SEGMENTS[:8])
+        old = gen_cfg(rng, segs=SEG_UPD)
+        new = gen_cfg(rng, segs=SEG_UPD)
         prio = rng.choice(["new", "old", "new-defaults"])
         dflt = None
         if prio == "new-defaults" or rng.random() < 0.1:
             # `defaults` leaves: int / None only (a str or list there makes `k in defaults` type-dependent)
-            dflt = gen_cfg(rng, segs=SEGMENTS[:8], leaf=gen_leaf_plain)
+            dflt = gen_cfg(rng, segs=SEG_UPD, leaf=gen_leaf_plain)
             if rng.random() < 0.5:
                 _overlay(dflt, old, rng)
         yield "update", {"old": old, "new": new, "priority": prio, "defaults": dflt}
     for _ in range(ctx.n(200, 2000)):
-        yield "merge", {"dicts": [gen_cfg(rng, segs=SEGMENTS[:8]) for _ in range(rng.randint(0, 4))]}
+        yield "merge", {"dicts": [gen_cfg(rng, segs=SEG_UPD) for _ in range(rng.randint(0, 4))]}
     raw_values = ["123", "1.5", "true", "False", "None", "null", "hello", "[1, 2]", "{'a': 1}", "'quoted'", "", "a b",
                   "TRUE", "1e3", "(1, 2)", "foo.bar", "NONE", "nUlL", "FALSE", "none ", "0", "-1", "1_000", "0x10", "tRuE"]
     names = ["A", "A__B", "A__C", "A_B", "A-B", "X", "X__Y", "Q__R_S", "a__b", "A__B__C", "", "A___B", "A__", "__A",
              "A____B", "Ab__cD", "X__Y__Z__W"]
     for _ in range(ctx.n(100, 1000)):
-        dfl = [gen_cfg(rng, depth=2, segs=SEGMENTS[:8], leaf=gen_leaf_plain) for _ in range(rng.randint(0, 3))]
+        dfl = [gen_cfg(rng, depth=2, segs=SEG_UPD, leaf=gen_leaf_plain) for _ in range(rng.randint(0, 3))]
         env = [["DASK_" + rng.choice(names[:10]), rng.choice(raw_values[:12])] for _ in range(rng.randint(0, 3))]
-        yield "glue", {"cfg": gen_cfg(rng, depth=2, segs=SEGMENTS[:8], leaf=gen_leaf_plain), "defaults": dfl, "env": env,
-                       "new": gen_cfg(rng, depth=2, segs=SEGMENTS[:8], leaf=gen_leaf_plain)}
+        yield "glue", {"cfg": gen_cfg(rng, depth=2, segs=SEG_UPD, leaf=gen_leaf_plain), "defaults": dfl, "env": env,
+                       "new": gen_cfg(rng, depth=2, segs=SEG_UPD, leaf=gen_leaf_plain)}
     for _ in range(ctx.n(300, 3000)):
         env = []
         for _ in range(rng.randint(0, 5)):
